@@ -4,7 +4,7 @@
 # 2. applies it to /repo, runs the given quick checks (default: all), reverts
 # 3. writes /verif/seeded/<name>/{patch.diff,demo/,meta.json,detection.txt}
 NAME="$1"; shift
-WT=${WTROOT:-/tmp/wt}/${NAME%-r2}
+WT=${WTROOT:-/tmp/wt}/${NAME%-r[0-9]}
 OUT=/verif/seeded/$NAME
 [ -f "$WT/SEED/patch.diff" ] || { echo "no patch in $WT/SEED"; exit 2; }
 mkdir -p "$OUT"
